@@ -213,6 +213,9 @@ func c12History(r *vfRun) {
 			}
 			return
 		}
+		if i > 0 && !closed && c01HugeSeekLands(ref, op) {
+			return
+		}
 		res := env.do(op)
 		if i == 0 {
 			if res.Err != nil {
